@@ -1,5 +1,113 @@
-"""thorough tier extras (DESIGN 3.6): mutant self-test, solver seeds, replay templates."""
+"""thorough tier extras (DESIGN 3.6):
+ (i)   solver-seed robustness: re-prove the unit under 3 seeds derived from VERIF_SEED with half the rlimit
+ (ii)  weak-contract guard: every textual mutant in vx/mutants/<unit>.json (a deliberate property-breaking edit of the
+       *extracted* text) must fail one of the obligations it names; a surviving mutant is exit 2 ("contract too weak"),
+       never a property violation
+ (iii) every replay template of the property's obligations is executed against the real code: it must pass
+       (known findings: must fail) - a replay failing on code whose obligations all verify is a concrete violation
+"""
+import json
+import os
+import concurrent.futures as cf
+
+import runner
+from runner import Undecided
+
+HERE = os.path.dirname(os.path.abspath(__file__))
+
+
+def load_mutants(unit):
+    p = os.path.join(HERE, "mutants", unit + ".json")
+    if os.path.exists(p):
+        with open(p) as f:
+            return json.load(f)
+    return []
+
+
+def make_mutator(m):
+    def mutate(fpath, name, text):
+        if name != m["fn"] or (m.get("file") and m["file"] != fpath):
+            return text
+        if text.count(m["find"]) < 1:
+            raise Undecided("mutant %s: pattern not found in %s (update vx/mutants)" % (m["id"], name))
+        return text.replace(m["find"], m["replace"], 1)
+    return mutate
 
 
 def run(prop, units, scratch, seed, out):
-    pass
+    info = {"seeds": [], "mutants": [], "replays": []}
+    # (i) seeds
+    os.environ["VERIF_RLIMIT"] = "30"
+    try:
+        for k in range(3):
+            sd = (seed * 7919 + 104729 * (k + 1)) % 100000
+            for un in units:
+                r = runner.verify_unit(un, scratch, reach=False, seed=sd, tag="_s%d" % k)
+                mine = {n for n, o in r["unit"].obligations.items() if prop in o["props"]}
+                bad = [n for n in r["failed"] if n in mine and n not in out["known"]]
+                info["seeds"].append({"unit": un, "seed": sd, "failed": bad})
+                if bad:
+                    raise Undecided("proof of %s is not robust: fails under solver seed %d (rlimit 30)" % (", ".join(bad), sd))
+    finally:
+        os.environ.pop("VERIF_RLIMIT", None)
+    # (ii) mutants
+    jobs = []
+    for un in units:
+        for m in load_mutants(un):
+            if prop in m.get("props", [prop]):
+                jobs.append((un, m))
+
+    def one(job):
+        un, m = job
+        sub = os.path.join(scratch, "mut_" + m["id"].replace("/", "_"))
+        os.makedirs(sub, exist_ok=True)
+        try:
+            r = runner.verify_unit(un, sub, reach=False, mutate=make_mutator(m))
+        except Undecided as e:
+            return (m, None, str(e))
+        failed = set(r["failed"]) | {"(unattributed in %s)" % u.get("function") for u in r["unattributed"]}
+        return (m, failed, None)
+
+    with cf.ThreadPoolExecutor(max_workers=8) as ex:
+        results = list(ex.map(one, jobs))
+    survivors = []
+    for m, failed, err in results:
+        killed = bool(failed) and any(e in failed for e in m["expect"])
+        info["mutants"].append({"id": m["id"], "expect": m["expect"], "failed": sorted(failed) if failed else None, "killed": killed, "error": err})
+        if not killed:
+            survivors.append("%s (expected %s, got %s%s)" % (m["id"], m["expect"], sorted(failed) if failed else None, ", " + err if err else ""))
+    # (iii) replays on the real code
+    import replay
+    idx = replay.index()
+    tests = []
+    expect_fail = set()
+    for n in out["obligations"]:
+        ent = idx.get(n)
+        if not ent:
+            continue
+        for t in ent.get("tests") or [ent["test"]]:
+            if t not in tests:
+                tests.append(t)
+            if n in out["known"]:
+                expect_fail.add(t)
+    if tests:
+        res = replay.cargo_test(tests, scratch)
+        for t in tests:
+            ok, log = res[t]
+            info["replays"].append({"test": t, "passed": ok, "expected": "fail (known finding)" if t in expect_fail else "pass"})
+            if ok is None:
+                raise Undecided("replay test %s did not run: %s" % (t, log[-300:]))
+            if ok is False and t not in expect_fail:
+                # concrete failing run on the real code while every obligation verified
+                rp = os.path.join(os.path.dirname(HERE), "replays", "out", "%s.replay.%s.txt" % (prop, t.split("::")[-1]))
+                os.makedirs(os.path.dirname(rp), exist_ok=True)
+                with open(rp, "w") as f:
+                    f.write("property: %s\nreplay test %s fails on the real code although all obligations verify\n\n%s\n" % (prop, t, log))
+                out["lines"].append("VIOLATION property=%s replay=%s obligation=replay:%s" % (prop, rp, t.split("::")[-1]))
+                out["status"] = 1
+    out["extra"]["thorough"] = info
+    out["extra"]["mutants_killed"] = sum(1 for m in info["mutants"] if m["killed"])
+    out["extra"]["mutants_total"] = len(info["mutants"])
+    out["extra"]["replays_run"] = len(info["replays"])
+    if survivors and out["status"] == 0:
+        raise Undecided("contract too weak: mutant(s) survive: " + "; ".join(survivors[:4]))
